@@ -71,7 +71,8 @@ class UnixSocketSession(Session):
 
         self._socket = sock
         self._connected = True
-        self._post_connect()
+        # the caller's timeout also bounds the wait for the server's <hello>
+        self._post_connect(timeout)
 
     def _transport_read(self):
         return self._socket.recv(BUF_SIZE)
